@@ -144,24 +144,8 @@ fn check_program(lines: &[String], replies: &[String], model: Option<&ProgramAst
     }
     if problem.is_none() {
         if let Some(p) = model {
-            let mut m = Machine::new(p.clone(), 1);
-            m.warnings = true;
-            let mut ok = true;
-            loop {
-                if m.steps > 2000 {
-                    ok = false;
-                    break;
-                }
-                match m.step(None) {
-                    Step::Ran => {}
-                    Step::Ended => break,
-                    Step::Err(Fail::Undefined(_), _) => {
-                        ok = false;
-                        break;
-                    }
-                    _ => break,
-                }
-            }
+            let (m, mend, _) = crate::c03::run_model_script(p, 1, true, replies, |_| {});
+            let ok = !matches!(mend, crate::c03::ModelEnd::Undefined(_) | crate::c03::ModelEnd::Cap);
             let capped = obs[3].end.contains("Cap");
             if ok {
                 acc.trace_compared += 1;
@@ -344,9 +328,16 @@ pub fn run(thorough: bool) -> Report {
         fams.push((&fnm, 4, false));
         fams.push((&brm, 4, true));
     }
+    let inm = input_menu();
+    fams.push((&inm, 2, true));
+    fams.push((&inm, 3, false));
+    if thorough {
+        fams.push((&inm, 4, false));
+    }
     for (menu, n, all) in &fams {
         let base = menu.len() as u64;
         let joins = join_patterns(*n, *all);
+        let with_input = menu.iter().any(|m| m.0.starts_with("INPUT"));
         (0..pow(base, *n)).into_par_iter().for_each(|i| {
             let idxs = decode_seq(i, base, *n);
             let seq: Vec<T> = idxs.iter().map(|k| menu[*k].1.clone()).collect();
@@ -354,7 +345,14 @@ pub fn run(thorough: bool) -> Report {
             for &j in &joins {
                 let prog = layout(&seq, j);
                 let lines = render_program(&prog);
-                check_program(&lines, &[], Some(&prog), "grammar program", &mut acc);
+                if with_input {
+                    // the input script is part of the quantification: two scripts per program
+                    for si in [1usize, 2] {
+                        check_program(&lines, &crate::c08::script(si, 8), Some(&prog), "grammar program with an input script", &mut acc);
+                    }
+                } else {
+                    check_program(&lines, &[], Some(&prog), "grammar program", &mut acc);
+                }
             }
             merge(&total, acc);
         });
